@@ -139,8 +139,36 @@ func drawVal(r *rand.Rand, class string) float64 {
 			v = -v
 		}
 		return v
+	case "huge-whole":
+		return hugeWhole(r)
 	}
 	return r.Float64()
+}
+
+// hugeWhole: a whole number of magnitude in [2^53, 3e38] that is exactly
+// representable in float32 (so every storage type holds it exactly), both signs;
+// the int64 boundary and its neighbourhood are drawn on purpose.
+func hugeWhole(r *rand.Rand) float64 {
+	var v float64
+	switch r.Intn(8) {
+	case 0:
+		v = math.Ldexp(1, 63)
+	case 1:
+		v = math.Ldexp(1, 64)
+	case 2:
+		v = math.Ldexp(1, 53+r.Intn(10)) // below the int64 range limit
+	case 3:
+		v = float64(float32(3e38 * (0.5 + r.Float64()/2)))
+	default:
+		v = float64(float32(math.Ldexp(1+r.Float64(), 53+r.Intn(75)))) // up to < 2^128·… = 3.4e38
+	}
+	if v > 3e38 {
+		v = float64(float32(3e38))
+	}
+	if r.Intn(2) == 0 {
+		v = -v
+	}
+	return v
 }
 
 // includeEmptyVertexRecords admits meshes / configurations for which the vertex
@@ -163,6 +191,10 @@ type genOpts struct {
 	ForceN int
 	// TexOnly: the directed triangle mesh whose only attribute is TexCoord
 	TexOnly bool
+	// Splat: written through ply.SplatPly (fixed property table, little-endian, no write-unspecified)
+	Splat bool
+	// Salt varies the per-file reader kinds between the sub-cases of one history
+	Salt uint64
 }
 
 type paletteEntry struct {
@@ -330,6 +362,13 @@ func genMesh(r *rand.Rand, o genOpts) *meshCase {
 			cl = classes
 		}
 		class := cl[r.Intn(len(cl))]
+		if r.Intn(20) == 0 {
+			for _, x := range cl {
+				if x == "wide" { // attributes without a value-range restriction
+					class = "huge-whole"
+				}
+			}
+		}
 		a := attrib{Name: e.name, Arity: e.arity, Class: class, Data: make([][]float64, n)}
 		for i := range a.Data {
 			row := make([]float64, e.arity)
@@ -381,6 +420,14 @@ func genMesh(r *rand.Rand, o genOpts) *meshCase {
 	if o.TexOnly {
 		mc.Attrs = nil
 		add(paletteEntry{modeling.TexCoordAttribute, 2, 1, []string{"unit", "f64", "f32", "wide"}})
+	}
+	if o.Splat {
+		// SplatPly writes a fixed table: make sure it has something to write
+		for _, e := range recognisedPalette {
+			if mc.attr(e.arity, e.name) == nil && (e.name == modeling.PositionAttribute || (e.name != modeling.ColorAttribute && r.Intn(2) == 0)) && n > 0 {
+				add(e)
+			}
+		}
 	}
 	if n > 0 && len(mc.Attrs) == 0 {
 		add(recognisedPalette[0])
@@ -457,7 +504,27 @@ func plyType(t string) ply.ScalarPropertyType {
 	panic("harness: unknown type " + t)
 }
 
+// the property table of ply.SplatPly.Write (formats/ply/fs.go): float columns, no write-unspecified
+func splatWriters() []wspec {
+	ws := []wspec{
+		{modeling.PositionAttribute, 3, []string{"x", "y", "z"}, "float", false},
+		{modeling.NormalAttribute, 3, []string{"nx", "ny", "nz"}, "float", false},
+		{modeling.FDCAttribute, 3, []string{"f_dc_0", "f_dc_1", "f_dc_2"}, "float", false},
+		{modeling.ScaleAttribute, 3, []string{"scale_0", "scale_1", "scale_2"}, "float", false},
+		{modeling.RotationAttribute, 4, []string{"rot_0", "rot_1", "rot_2", "rot_3"}, "float", false},
+		{modeling.OpacityAttribute, 1, []string{"opacity"}, "float", false},
+	}
+	for i := 0; i < 45; i++ {
+		n := fmt.Sprintf("f_rest_%d", i)
+		ws = append(ws, wspec{n, 1, []string{n}, "float", false})
+	}
+	return ws
+}
+
 func genConfig(r *rand.Rand, mc *meshCase, o genOpts) config {
+	if o.Splat {
+		return config{Kind: "splat", Writers: splatWriters(), Unspecified: false}
+	}
 	if o.TexOnly {
 		// directed: default writer | custom writer storing s/t per vertex | custom writer with nothing to apply
 		switch r.Intn(10) {
@@ -612,8 +679,8 @@ func (cfg config) meshWriter(format ply.Format) ply.MeshWriter {
 }
 
 func (cfg config) sig() string {
-	if cfg.Kind == "default" {
-		return "default"
+	if cfg.Kind == "default" || cfg.Kind == "splat" {
+		return cfg.Kind
 	}
 	var ws []string
 	for _, w := range cfg.Writers {
